@@ -199,17 +199,17 @@ func c19(c *an.Ctx) {
 	})
 
 	exempt := map[string]string{
-		"graphql.prepareQuery":                       "validation must see every node whatever its directives",
-		"graphql.PrepareQuery":                       "validation must see every node whatever its directives",
-		"graphql.detectCyclesAndUnusedFragments$1":   "cycle detection over fragment definitions",
-		"graphql.detectConflicts$1$1":                "conflict detection is deliberately conservative (all nodes)",
-		"graphql.detectConflicts$1":                  "conflict detection is deliberately conservative (all nodes)",
-		"federation.printSelections":                 "debug printing",
-		"federation.(*Planner).planUnion":            "input is the flattener's output: its per-type fragments carry no directives",
-		"federation.marshalPbSelections":             "serialises an already planned (flattened) selection set",
-		"federation.unmarshalPbSelectionSet":         "deserialises a planned selection set",
-		"federation.(*flattener).flattenFragments":   "required site (checked above)",
-		"graphql.Flatten$1":                          "required site (checked above)",
+		"graphql.prepareQuery":                     "validation must see every node whatever its directives",
+		"graphql.PrepareQuery":                     "validation must see every node whatever its directives",
+		"graphql.detectCyclesAndUnusedFragments$1": "cycle detection over fragment definitions",
+		"graphql.detectConflicts$1$1":              "conflict detection is deliberately conservative (all nodes)",
+		"graphql.detectConflicts$1":                "conflict detection is deliberately conservative (all nodes)",
+		"federation.printSelections":               "debug printing",
+		"federation.(*Planner).planUnion":          "input is the flattener's output: its per-type fragments carry no directives",
+		"federation.marshalPbSelections":           "serialises an already planned (flattened) selection set",
+		"federation.unmarshalPbSelectionSet":       "deserialises a planned selection set",
+		"federation.(*flattener).flattenFragments": "required site (checked above)",
+		"graphql.Flatten$1":                        "required site (checked above)",
 	}
 	c.Check("R-WHO", "no other function of graphql/federation opens a fragment body without the directive test (reasoned exempt list)", 6, func(o *an.O) {
 		for _, fn := range p.ModuleFuncs(func(rel string) bool { return rel == gq || rel == "federation" }) {
